@@ -5,6 +5,7 @@ import (
 	"encoding/binary"
 	"fmt"
 	"io"
+	"math"
 )
 
 // Byte order IDs.
@@ -120,6 +121,13 @@ func ReadFlatCoords1(r io.Reader, byteOrder binary.ByteOrder, stride int) ([]flo
 	}
 	if limit := MaxGeometryElements[1]; limit >= 0 && uint64(n) > uint64(limit) {
 		return nil, ErrGeometryTooLarge{Level: 1, N: int(n), Limit: limit}
+	}
+	// The array holds n*stride float64s and is read through a buffer of
+	// 8*n*stride bytes. Where int has 32 bits those products can wrap for a count
+	// that the configured limit (or no limit) lets through, so the count is
+	// checked, in 64 bits, against what an int can hold.
+	if maxN := math.MaxInt / 8 / max(stride, 1); uint64(n) > uint64(maxN) {
+		return nil, ErrGeometryTooLarge{Level: 1, N: int(n), Limit: maxN}
 	}
 	flatCoords := make([]float64, int(n)*stride)
 	if err := ReadFloatArray(r, byteOrder, flatCoords); err != nil {
